@@ -148,7 +148,16 @@ impl C03 {
             let m1 = match prove_via(rln, r1, &s, Entry::Tree, false) { PResult::Ok(m) => m, o => return Err(format!("{:?}", o)) };
             let m2 = match prove_via(rln, &r2, &s, Entry::Tree, false) { PResult::Ok(m) => m, o => return Err(format!("{:?}", o)) };
             let v = verify_all(rln, &m2, &r2.signal, &s.root);
-            let rec = recover(rln, &m1, &m2);
+            let mut rec = recover(rln, &m1, &m2);
+            // the same pair handed over in the verification encoding (message | signal length | signal): the two inputs
+            // then have different lengths; and mixed encodings. All must recover the same thing.
+            for (e1, e2) in [(with_signal(&m1, &r1.signal), with_signal(&m2, &r2.signal)), (m1.clone(), with_signal(&m2, &r2.signal)), (with_signal(&m1, &r1.signal), m2.clone())] {
+                let alt = recover(rln, &e1, &e2);
+                if alt != rec {
+                    rec = Rec::Err(format!("recovery depends on the encoding of the inputs: bare messages give {:?}, inputs of {} and {} bytes give {:?}", short(&rec), e1.len(), e2.len(), short(&alt)));
+                    break;
+                }
+            }
             Ok((m1, m2, rec, v))
         });
         let (m1, m2, rec, v) = match res {
